@@ -482,6 +482,10 @@ func olvmSender(p *pTx, m *olvmPayload, chainID string) ([]byte, error) {
 	if len(p.Sigs) < 1 {
 		return nil, errors.New("no signature")
 	}
+	if len(p.Sigs[0].Sig) != 65 {
+		// (go-ethereum's signer panics on any other length)
+		return nil, fmt.Errorf("signature of %d bytes, an EIP-155 signature has 65", len(p.Sigs[0].Sig))
+	}
 	var to *ethcmn.Address
 	if m.To != nil {
 		t := ethcmn.BytesToAddress(*m.To)
